@@ -232,4 +232,12 @@ def selftest():
           "        elif not (station.geoid == vehicle.geoid):\n            return None, None\n        elif has_available_charger:", kind="twin"),
         V("twin-guard-order", D + "dispatch_base.py", "        elif not is_valid:\n            return None, None\n        elif not base.membership.grant_access_to_membership(vehicle.membership):\n            msg = f\"vehicle {vehicle.id} and base {base.id} don't share a membership\"\n            return SimulationStateError(msg), None",
           "        elif not base.membership.grant_access_to_membership(vehicle.membership):\n            msg = f\"vehicle {vehicle.id} and base {base.id} don't share a membership\"\n            return SimulationStateError(msg), None\n        elif not is_valid:\n            return None, None", kind="twin"),
-    ]
+    ] + _auto()
+
+
+def _auto():
+    from ..loader import Repo
+    from .. import autovariants as av
+    # ServicingTrip.enter tests its route three times over (is_valid + two re-checks): dropping one leaves the others (equivalent)
+    return av.guard_variants(Repo(), "LOC", skip=("ServicingTrip.enter",))
+
